@@ -76,6 +76,11 @@ CHECKS = {
              "session directory removed and the connection closed, and the fault must propagate. 'Confirmed over all paths' required. Faults inside DuckDB, real files and multi-fault runs are outside.",
         note="Stubs are part of the claim (each may raise once; close/rmtree do not fail). Trusted: CrossHair.",
         ref="3 C16"),
+    "C28": dict(technique="bounded SMT (z3) equivalence between the SQL regenerated from the real transpiler + ViralPropagation/sql.py and the engine's documented propagation model over symbolic tables; models replayed through run()",
+        engine="sqlsmt", ref="3 C28", note="Trusted: sqlglot + vt/sqlsmt SQL semantics incl. list_reduce/list()/LEAST/GREATEST (self-checked against real DuckDB per template), z3, AST shapes.",
+        text="Rules registered through the real visit_ViralPropagationDef (enumerated tables with pair/single/default clauses in both declaration orders, non-associative tables, aggregate min/max/sum/avg). "
+             "For ~105 templates the viral column of the emitted SQL is compared, over all inputs of 2-3 datapoints with nullable viral values, with the model: pairwise combination for ds-ds operators, "
+             "joins and dataset-if; per-datapoint (enumerated) or whole-operand (aggregate) for row-preserving operators; group combination for aggregations; unchanged by clauses, assignment and set operators."),
     "C30": dict(
         technique="CrossHair symbolic execution of the real set_decimal_config/_parse_env_value with the environment as symbolic integers",
         text="Partial. Decides, for every integer -5..45 (and 'not defined') of both variables at once, that a setting is accepted exactly when documented, "
